@@ -3040,13 +3040,28 @@ class Choice(Set):
 
     _currentIdx = None
 
+    def _differsInAlternative(self, other):
+        # two CHOICE values holding different alternatives are different
+        # values even when the alternatives hold equal contents
+        return (isinstance(other, Choice) and
+                (other._currentIdx is None or
+                 self.getName() != other.getName()))
+
     def __eq__(self, other):
         if self._componentValues:
+            if self._differsInAlternative(other):
+                return False
+            if isinstance(other, Choice):
+                other = other.getComponent()
             return self._componentValues[self._currentIdx] == other
         return NotImplemented
 
     def __ne__(self, other):
         if self._componentValues:
+            if self._differsInAlternative(other):
+                return True
+            if isinstance(other, Choice):
+                other = other.getComponent()
             return self._componentValues[self._currentIdx] != other
         return NotImplemented
 
